@@ -176,6 +176,8 @@ def gen_plan(prop, seed, index, tier="quick"):
 def gen_faults(r, prop, nbrokers, nparts):
     kinds = ["drop_before_apply", "drop_after_apply", "lose_response", "reply_error", "leader_move",
              "stale_metadata", "delay", "leader_unavailable"]
+    if nbrokers >= 2:
+        kinds.append("broker_failover")
     enabled = r.sample(kinds, r.randint(1, len(kinds)))
     apis = ["Fetch", "Fetch", "Fetch", "Metadata", "ListOffsets"]
     out = []
@@ -201,6 +203,10 @@ def gen_faults(r, prop, nbrokers, nparts):
         elif k == "stale_metadata":
             out.append({"on": trig, "do": {"stale_metadata": [r.randint(1, nbrokers),
                                                              r.choice([0.1, 0.5, 1.5])]}})
+        elif k == "broker_failover":
+            out.append({"on": trig, "do": {"broker_failover": [
+                r.choice(["serving", "serving_after", r.randint(1, nbrokers)]),
+                r.choice([0.3, 3.0, 1e6])]}})
     return out
 
 
